@@ -12,7 +12,9 @@ def generate(repo):
     fx = extract.extract_slots(os.path.join(repo, 'src/dynamic_roots.rs'), rec)
     d = fx['slots.decls']
     g = gen_verus.Gen()
+    start = len(g.lines) + 1
     g.emit(open(os.path.join(VERIF, 'verus_slots/slots_shim.rs')).read())
+    g.fnspan['file:slots_shim.rs'] = (start, len(g.lines))
     g.emit('verus! {')
     g.emit('// ---- declarations cut verbatim from /repo/src/dynamic_roots.rs (`\'gc` dropped, Gc<\'gc, ()> -> GcRef, fields made pub for the spec module)')
     g.emit('pub mod decl {')
